@@ -47,7 +47,6 @@ def normalise(s: Any, keep_random: bool = False) -> Any:
         s = _ADDR.sub("0xADDR", s)
         s = _TMP.sub("/SCRATCH", s)
         if not keep_random:
-            s = _AUTOID.sub("'AUTOID'", s)
             # reprs of string sets: order depends on the hashes of the (normalised-away) members
             s = _FLATSET.sub(_sort_flat_set, s)
         if not keep_random:
